@@ -72,8 +72,12 @@ def r18_1(ctx: Ctx):
     viol = []
     unknown = []
 
+    step_heads = {cfg.loop_of(n)["head"].id for n in step_nodes if cfg.loop_of(n) is not None}
+
     # state: "OUT" | (opt, flag, stepped)  opt/flag in {None, True, False}
     def node_fn(n, s):
+        if n.kind == "forhead" and n.id not in step_heads:
+            return [s]  # an enclosing loop over the levels
         if n.kind == "forhead":
             if s != "OUT":
                 opt, flag, stepped = s
@@ -93,10 +97,14 @@ def r18_1(ctx: Ctx):
         return [(opt, flag, stepped)]
 
     def edge_fn(n, lab, s):
+        if n.kind == "forhead" and n.id not in step_heads:
+            return s
         if n.kind == "forhead":
             return (None, None, False) if lab == "iter" else "OUT"
         if s == "OUT" or n.kind != "cond" or lab not in (True, False):
             return s
+        if lab is False and isinstance(n.ast, ast.Attribute) and n.ast.attr in ("is_active", "_active"):
+            return "OUT"  # the loop itself filters out inactive demes: not one of the iterations this rule is about
         opt, flag, stepped = s
         e = n.ast
         is_opt = _mentions_option(e) or (isinstance(e, ast.Name) and e.id in opt_defs)
@@ -289,7 +297,18 @@ def r18_3(ctx: Ctx):
         if isinstance(src, ast.Name) and src.id in defs:
             srcs = [_core_iter(d) for d in defs[src.id]]
         ok = all(is_self_attr(s, "active_non_leaves", selfn) for s in srcs)
-        obs.append(ctx.ob("R18.3", f, loop, status=OK if ok else VIOLATION, detail="flags recomputed over the active non-leaf demes" if ok else f"the flag loop ranges over `{', '.join(norm(s) for s in srcs)}`, not over the active non-leaf demes", construct="range:" + norm(loop.iter)))
+        st_rng = OK if ok else VIOLATION
+        if not ok:
+            # the collection may be built from the level lists directly: read it as a deme listing
+            from .common import iteration_source
+
+            isrc = iteration_source(ctx, "DemeTree", f, loop)
+            unknown_f = [x for x in isrc["filters"] if x.startswith("?")]
+            if isrc["levels"] == -1 and isrc["filters"] == {"is_active"}:
+                st_rng, ok = OK, True
+            elif isrc["levels"] is None or unknown_f:
+                st_rng = INCONCLUSIVE
+        obs.append(ctx.ob("R18.3", f, loop, status=st_rng, detail="flags recomputed over the active non-leaf demes" if ok else f"the flag loop ranges over `{', '.join(norm(s) for s in srcs)}`, not over the active non-leaf demes", construct="range:" + norm(loop.iter)))
     anl = ctx.prog.own_method("DemeTree", "active_non_leaves")
     from .common import deme_listing
 
